@@ -244,7 +244,7 @@ def standard_bases(ctx):
         if p is None:
             continue
         v = p.value
-        ctx.oblige(f"C05/{cname}._log_prob/struct/sum_over_event", isinstance(v, SumT), [], props, kind="struct", fn=q, note="summed (not averaged) over independent dimensions")
+        ctx.oblige(f"C05/{cname}._log_prob/struct/sum_over_event", isinstance(v, SumT), [], props, kind="applicability", fn=q, note="summed (not averaged) over independent dimensions")
         if isinstance(v, SumT):
             ctx.oblige(f"C05/{cname}._log_prob/post/standard_logpdf", v.t == LOGPDF[fam](x.e), p.cond, props, fn=q, replay=dict(kind="c05", vars={}))
     # hand-written Gumbel: -(z + exp(-z))
@@ -256,7 +256,7 @@ def standard_bases(ctx):
         ctx.oblige("C05/_StandardGumbel._log_prob/post/textbook", p.value.t == -(x.e + exp_(-x.e)), p.cond, props, fn=q, replay=dict(kind="c05", vars={}))
         ctx.control("C05/_StandardGumbel._log_prob/control/sign", p.value.t == -(x.e - exp_(-x.e)), p.cond, props, fn=q)
     else:
-        ctx.oblige("C05/_StandardGumbel._log_prob/struct/sum_over_event", False, [], props, kind="struct", fn=q)
+        ctx.oblige("C05/_StandardGumbel._log_prob/struct/sum_over_event", False, [], props, kind="applicability", fn=q)
     # Student t: df passed to the T3 logpdf
     cls = it.repo_class(f"{MOD}._StandardStudentT")
     df = ev("df")
@@ -294,7 +294,7 @@ def location_scale(ctx):
             hyp = p.cond
             ctx.oblige(f"C11/{cname}.__init__/post/accepts_only_positive_scale#{i}", scale.e > 0, hyp, props, fn=q + ".__init__", replay=rp)
             from fjvc.interp import obj_class
-            ctx.oblige(f"C05/{cname}.__init__/struct/base_family#{i}", obj_class(d.base_dist).__name__ == base_name and obj_class(d.bijection).__name__ == "Affine", [], props, kind="struct", fn=q + ".__init__")
+            ctx.oblige(f"C05/{cname}.__init__/struct/base_family#{i}", obj_class(d.base_dist).__name__ == base_name and obj_class(d.bijection).__name__ == "Affine", [], props, kind="applicability", fn=q + ".__init__")
             ctx.oblige(f"C05/{cname}.__init__/post/reproduces_loc_scale#{i}", z3.And(lift(d.loc) == loc.e, lift(d.scale) == scale.e), hyp, props, fn=q + ".__init__", replay=rp)
             # full density through the real change-of-variables path with the real Affine methods (self unwrapped)
             ub = Obj(obj_class(d.bijection), loc=d.bijection.loc, scale=unwrap(d.bijection.scale), shape=d.bijection.shape)
@@ -306,7 +306,7 @@ def location_scale(ctx):
                 ctx.oblige(f"C05/{cname}/post/textbook_log_density#{i}", pl[0].value.t == std - log_(scale.e), hyp + pl[0].cond, props, fn=f"{MOD}.AbstractTransformed._log_prob", replay=rp)
                 ctx.control(f"C05/{cname}/control/swapped_loc_scale#{i}", pl[0].value.t == (LOGPDF[fam]((x.e - scale.e) / loc.e) if fam else x.e) - log_(loc.e), hyp + pl[0].cond + [loc.e > 0], props, fn=q)
             else:
-                ctx.oblige(f"C05/{cname}/struct/log_prob_is_sum#{i}", False, [], props, kind="struct", fn=q)
+                ctx.oblige(f"C05/{cname}/struct/log_prob_is_sum#{i}", False, [], props, kind="applicability", fn=q)
     # StudentT(df, loc, scale): _StandardStudentT(df) pushed through Affine(loc, scale); df stays positive for every raw value
     cls = it.repo_class(f"{MOD}.StudentT")
     dfv = ev("df")
@@ -322,7 +322,7 @@ def location_scale(ctx):
         d = p.value
         from fjvc.interp import obj_class
         ctx.oblige(f"C11/StudentT.__init__/post/accepts_only_positive_df_and_scale#{i}", z3.And(dfv.e > 0, scale.e > 0), p.cond, props, fn=q + ".__init__", replay=rp)
-        ctx.oblige(f"C05/StudentT.__init__/struct/base_family#{i}", obj_class(d.base_dist).__name__ == "_StandardStudentT" and obj_class(d.bijection).__name__ == "Affine", [], props, kind="struct", fn=q + ".__init__")
+        ctx.oblige(f"C05/StudentT.__init__/struct/base_family#{i}", obj_class(d.base_dist).__name__ == "_StandardStudentT" and obj_class(d.bijection).__name__ == "Affine", [], props, kind="applicability", fn=q + ".__init__")
         ctx.oblige(f"C05/StudentT.__init__/post/reproduces_df_loc_scale#{i}", z3.And(lift(d.df) == dfv.e, lift(d.loc) == loc.e, lift(d.scale) == scale.e), p.cond, props, fn=q + ".__init__", replay=rp,
                    rounds=3, extra_terms=[exp_(dfv.e), exp_(lift(d.df))])
         ub = Obj(obj_class(d.bijection), loc=d.bijection.loc, scale=unwrap(d.bijection.scale), shape=d.bijection.shape)
@@ -333,11 +333,11 @@ def location_scale(ctx):
             z = (x.e - loc.e) / scale.e
             ctx.oblige(f"C05/StudentT/post/textbook_log_density#{i}", pl[0].value.t == LOGPDF_T(z, lift(unwrap(d.base_dist.df))) - log_(scale.e), p.cond + pl[0].cond, props, fn=f"{MOD}.AbstractTransformed._log_prob", replay=rp)
         else:
-            ctx.oblige(f"C05/StudentT/struct/log_prob_is_sum#{i}", False, [], props, kind="struct", fn=q)
+            ctx.oblige(f"C05/StudentT/struct/log_prob_is_sum#{i}", False, [], props, kind="applicability", fn=q)
         # whatever value the raw df array later takes, the unwrapped df is strictly positive: df is held by
         # BijectionReparam(., SoftPlus()), whose unwrap is positive for every raw value (C11/BijectionReparam.unwrap/post/positive_for_every_raw_value)
         dfw = d.base_dist.df
-        ctx.oblige(f"C11/StudentT/struct/df_held_by_softplus_reparam#{i}", isinstance(dfw, Reparam) and getattr(dfw, "bij_name", None) == "SoftPlus", [], props, kind="struct", fn=f"{MOD}._StandardStudentT.__init__")
+        ctx.oblige(f"C11/StudentT/struct/df_held_by_softplus_reparam#{i}", isinstance(dfw, Reparam) and getattr(dfw, "bij_name", None) == "SoftPlus", [], props, kind="applicability", fn=f"{MOD}._StandardStudentT.__init__")
     ctx.oblige("C11/StudentT.__init__/struct/has_success_path", succ >= 1, [], props, kind="struct", fn=q + ".__init__")
     # Uniform(minval, maxval): loc = minval, scale = maxval - minval
     cls = it.repo_class(f"{MOD}.Uniform")
@@ -381,7 +381,7 @@ def location_scale(ctx):
         from fjvc.interp import obj_class
         bs = list(d.bijection.bijections)
         ok = len(bs) == 2 and obj_class(bs[0]).__name__ == "Affine" and obj_class(bs[1]).__name__ == "Exp" and obj_class(d.base_dist).__name__ == "StandardNormal"
-        ctx.oblige(f"C05/LogNormal.__init__/struct/affine_then_exp#{i}", ok, [], props, kind="struct", fn=q + ".__init__")
+        ctx.oblige(f"C05/LogNormal.__init__/struct/affine_then_exp#{i}", ok, [], props, kind="applicability", fn=q + ".__init__")
         if ok:
             ua = Obj(obj_class(bs[0]), loc=bs[0].loc, scale=unwrap(bs[0].scale), shape=SHAPE)
             uc = Obj(obj_class(d.bijection), bijections=(ua, bs[1]), shape=SHAPE, cond_shape=None)
